@@ -178,13 +178,23 @@ def _multi(ctx):
             continue
         if got == want:
             notes['agree'] += 1
-        elif len(c['_smis']) >= 3 and (got == wdev or (wdev is None and isinstance(got, str))):
-            # (wdev None: with the (k-1)-only shift the edit hits atoms it has no meaning on, the code raises)
-            notes['non_cumulative_shift_with_three_reactants'].append(label)
         else:
-            notes['differ_beyond_statement'].append(label)
+            # a rule with several reactants is applied to its reactant molecules side by side: the product
+            # set is those molecules with precisely the rule's edits on the matched atoms (RunRuleN)
+            shift = len(c['_smis']) >= 3 and (got == wdev or (wdev is None and isinstance(got, str)))
+            # (wdev None: with the (k-1)-only shift the edit hits atoms it has no meaning on, the code raises)
+            if shift:
+                notes['non_cumulative_shift_with_three_reactants'].append(label)
+            else:
+                notes['differ_beyond_statement'].append(label)
+            ctx.violation('several-reactants:' + ('index-shift:' if shift else '') + label,
+                          '%s: RunReactants gives %s; Reaction.tla (RunRuleN: one embedding per reactant, the edits '
+                          'applied to the matched atoms of the molecules side by side) gives %d product set(s)%s'
+                          % (label, got if isinstance(got, str) else '%d product set(s) that differ' % len(got),
+                             len(want), '; it is what the non-cumulative index shift produces' if shift else ''),
+                          {'kind': 'multi', 'label': label})
     ctx.extra['several_reactants'] = notes
-    ctx.log('several reactants (beyond the statement, never alarmed): %d cases agree with Reaction.tla, %d follow the '
+    ctx.log('several reactants: %d cases agree with Reaction.tla, %d follow the '
             'non-cumulative index shift (three reactants), %d differ otherwise'
             % (notes['agree'], len(notes['non_cumulative_shift_with_three_reactants']), len(notes['differ_beyond_statement'])))
 
